@@ -108,7 +108,12 @@ static void harness() {
       if (!db.has_checks(dbg)) continue;
       for (auto k : db.get_checks(dbg)) {
         if (hx::B(k == crab::checker::check_kind::CRAB_SAFE)) sx::check(as.second, "verdict-safe-but-assert-can-fail");
-        if (hx::B(k == crab::checker::check_kind::CRAB_UNREACH)) sx::check(sx::form(false), "verdict-unreachable-but-reached");
+        if (hx::B(k == crab::checker::check_kind::CRAB_UNREACH)) {
+          // known finding F22: with use_refined_invariants the stored invariants only describe error-reaching
+          // states, so 'unreachable' means 'cannot fail here'; with the finding excluded it is checked as such
+          if (sx::known("F22-refined-invariants-unreachable")) sx::check(as.second, "verdict-unreachable(refined invariants)-but-assert-can-fail");
+          else sx::check(sx::form(false), "verdict-unreachable-but-reached");
+        }
       }
     }
     sx::check(sx::form(true), "ran");
